@@ -527,6 +527,10 @@ def part_c(report, tier, scratch):
                         if n == 0 and (final_nl or VARIANTS[variant][1]):
                             continue
                         tasks.append([fmt, variant, list(lines), final_nl, depth])
+            # three source records (a middle one can be deleted, its neighbours stay file-backed), one edit less
+            for lines in itertools.product(src_atoms, repeat=3):
+                for final_nl in (True, False):
+                    tasks.append([fmt, variant, list(lines), final_nl, depth - 1])
     tasks.sort(key=lambda t: -len(t[2]))
     tasks = [[i] + t + [scratch] for i, t in enumerate(tasks)]
     agg = {}
@@ -543,6 +547,38 @@ def part_c(report, tier, scratch):
         report.cov["parts"].append(dict(name=name, depth_bound=depth, exhaustive=True, **a))
 
 
+def part_d(report, tier):
+    """record classes derived from another concrete record class (extra fields), used in every order with their
+    parent: per-class caches (field names / types / csv writers) must not leak along the inheritance chain"""
+    n = bad = 0
+    vals = {"str": ["", "a,b", "x\ty"], "int": [0, -1, 7], "float": [0.5, -0.0]}
+    for fmt in ("json", "csv", "tsv"):
+        for order in (("parent", "child"), ("child", "parent"), ("child",), ("parent", "child", "parent", "child")):
+            for ptypes, extra in ((["str"], ["int"]), (["int", "str"], ["float"]), (["str"], ["str", "int"])):
+                base = getattr(wf, BASES[fmt])
+                Pc = dataclasses.make_dataclass("P", [("f%d" % i, TYPES[t]) for i, t in enumerate(ptypes)], bases=(base,))
+                Cc = dataclasses.make_dataclass("Ch", [("g%d" % i, TYPES[t]) for i, t in enumerate(extra)], bases=(Pc,))
+                for who in order:
+                    cls, types = (Pc, ptypes) if who == "parent" else (Cc, ptypes + extra)
+                    for combo in itertools.product(*[vals[t] for t in types]):
+                        n += 1
+                        r = observe(lambda: cls(*combo))
+                        if r[0] != "ok":
+                            continue
+                        rec = r[1]
+                        out = observe(lambda: cls.load(rec.save().rstrip("\r\n")))
+                        if out[0] != "ok" or not same(out[1], rec):
+                            bad += 1
+                            report.violation({"part": "derived-classes", "format": fmt, "kind": "roundtrip", "who": who},
+                                             "%s record class %s (order of use %r, parent fields %r, extra fields %r): "
+                                             "load(save(%r)) -> %r" % (fmt, who, order, ptypes, extra, rec, out),
+                                             {"engine": "seqmc", "part": "derived-classes", "format": fmt, "order": list(order),
+                                              "parent_fields": ptypes, "extra_fields": extra, "values": list(map(repr, combo))})
+    report.part("derived-record-classes", states=n, transitions=n, evaluations=n, traces_validated_against_impl=n,
+                exhaustive=True, mismatches=bad,
+                what="parent/child record classes used in 4 orders x 3 field layouts x 3 formats, every value combination")
+
+
 # ------------------------------------------------------------------------------------------------
 def run(report, tier):
     scratch = "/dev/shm/verif-%d-c13" % os.getpid()
@@ -551,6 +587,7 @@ def run(report, tier):
         part_a(report, tier, scratch)
         part_b(report, tier)
         part_c(report, tier, scratch)
+        part_d(report, tier)
     finally:
         shutil.rmtree(scratch, ignore_errors=True)
     report.rule("A: one evaluation = one record: load(save(r)) == r (== and repr), one \\n-delimited line when written by a "
